@@ -130,7 +130,9 @@ func Authorize(ctx context.Context, policies cedar.PolicyIterator, entities type
 	}
 	for _, vs := range request.Variables {
 		if len(vs) == 0 {
-			return nil
+			// nothing to enumerate; a context that is already cancelled is still reported, as it is for every
+			// non-empty product
+			return ctx.Err()
 		}
 	}
 	be.policies = map[types.PolicyID]*ast.Policy{}
